@@ -553,6 +553,17 @@ def gen_std_program(rng, max_len=25):
                           rng.randrange(2 * len(body) // 3, len(body) + 1), rng.randrange(2 * len(body) // 3, len(body) + 1)])
         body.insert(pos, {"l": lab})
     prog += body
+    # a label in front of the very first instruction (table entry 0), referenced by a branch
+    if rng.random() < 0.12:
+        lab = "TOP"
+        if labels and rng.random() < 0.5:
+            lab = labels[0]
+            prog = [c for c in prog if c != {"l": lab}]
+        prog.insert(0, {"l": lab})
+        r = pool.pick(rng)
+        prog.append(rng.choice([{"m": "bez", "a": [], "o": [{"r": r}, {"lab": lab}]},
+                                {"m": "blt", "a": [], "o": [{"r": r}, {"i": 0}, {"lab": lab}]},
+                                {"m": "bne", "a": [], "o": [{"r": r}, {"r": r}, {"lab": lab}]}]))
     if rng.random() < 0.5:
         for r in pool.regs[:3]:
             prog.append({"m": "ret_reg", "a": [], "o": [{"r": list(r)}]})
